@@ -737,8 +737,10 @@ void do_trigger(int ev, int nested)
         if (!nested) { if (api_leave("cat_trigger_unsolicited_event", s)) return; if (L.unlock_failed) s = CAT_STATUS_OK - 100; }
         else { L = keep; I.depth = kd; }
         if (s == CAT_STATUS_OK - 100) {
-                /* unlock failed: outcome hidden; ask the queue */
+                /* unlock failed: the return value is masked; the outcome is determined (see above), ask the specification */
+                uint64_t before = WS.ev_accepted;
                 mon_trigger_unknown(ev);
+                if (W.trig_budget && WS.ev_accepted != before && I.S->trig_left > 0) I.S->trig_left--;
                 return;
         }
         if (W.trig_budget && s == CAT_STATUS_OK && I.S->trig_left > 0) I.S->trig_left--;
